@@ -5,7 +5,7 @@
 cd /verif
 export GOFLAGS=-mod=mod GOPROXY=off GOSUMDB=off GOTOOLCHAIN=local GOWORK=off
 [ -x bin/tongocheck ] || ./setup.sh >/dev/null
-seeds="$@"; [ -z "$seeds" ] && seeds=$(ls seeded | grep -v retired)
+seeds="$@"; [ -z "$seeds" ] && seeds=$(ls seeded | grep "^C[0-9][0-9]-")
 one() {
   id=$1
   r=/tmp/sm-repo-$id; v=/tmp/sm-verif-$id
